@@ -449,7 +449,7 @@ def extract(g, X):
               "file.rs:resolve_ref / xref.rs:get", resolve_ref)
 
     def getfn():
-        i = filers.index("impl<'a, B, OC, SC, L> Resolve for StorageResolver")
+        i = re.search(r"impl\s*<[^>]*>\s*Resolve\s+for\s+StorageResolver\b", filers).start()
         b = X.fn_body(filers[i:], "get")
         # the arm may carry a guard (`Err(e) if computed => …`: the error computed by this very load)
         shared = "true" if re.search(r"Err\(\s*\w+\s*\)\s*(?:if\s+[^=]*?)?=>\s*Err\(\s*PdfError::Shared\s*\{", b) else "false"
